@@ -2082,6 +2082,23 @@ impl Parser {
         }
 
         if real_ty.is_class() {
+            // an alias of a class is also a value (its constructor), registered under the
+            // alias' name; that must not replace a variable or constant that has this name
+            if let Some(existing) = input
+                .user_data()
+                .has_name_been_mapped_in_function(ident.name())
+            {
+                return Err(new_err(
+                    input.as_span(),
+                    &input.user_data().get_source_file_name(),
+                    format!(
+                        "`{}` already names a {} in this scope; a class alias needs a name of its own",
+                        ident.name(),
+                        if existing.is_const() { "constant" } else { "variable" }
+                    ),
+                ));
+            }
+
             ident.link_force_no_inherit(input.user_data(), real_ty.clone())?;
         }
 
